@@ -150,6 +150,9 @@ def run(rep):
                 continue
             e, pos = hit
             extra = [c for c in pos if not (c[0] == 'is' and c[1] == inner) and not (c[0] == 't' and c[1][0] == 'mcall' and c[1][2] == 'insert')]
+            # negative conditions: earlier match arms on the same scrutinee are fine; anything else (`if seen || big { return }`) stops the closure early
+            _, neg_ = split(e['cond'])
+            extra += [('not', c) for c in neg_ if not (c[0] == 'is' and c[1] == inner)]
             loops_ok = all(l[2] == [] for l in e['loops'])
             rep.check(not extra and loops_ok, 'C08.closure', key, cwhere, f'followed only under {[E.show(c, maxdepth=4) for c in extra][:2]} / filtered loop', ok_detail='followed unconditionally')
             ok_pass = e['args'][sidx[0]] == Sx and e['args'][midx[0]] == M
